@@ -32,13 +32,21 @@ type socketOpts struct {
 }
 
 func parseDialAddr(urlHost, dialAddr string, defaultPort uint16) (string, uint16, error) {
-	addr := urlHost
-	if len(dialAddr) > 0 {
-		addr = dialAddr
-	}
-	host, port, err := trySplitHostPort(addr)
+	host, port, err := trySplitHostPort(urlHost)
 	if err != nil {
 		return "", 0, err
+	}
+	if len(dialAddr) > 0 {
+		// dialAddr overwrites the host. It overwrites the port only
+		// if it has one. Otherwise, the port from url is kept.
+		dialHost, dialPort, err := trySplitHostPort(dialAddr)
+		if err != nil {
+			return "", 0, err
+		}
+		host = dialHost
+		if dialPort != 0 {
+			port = dialPort
+		}
 	}
 	if port == 0 {
 		port = defaultPort
